@@ -96,12 +96,41 @@ def _cache_dir():
     if os.path.realpath(REPO) != '/repo':
         inside = os.path.join(REPO, '.verif_facts')
         try:
-            os.makedirs(inside, exist_ok=True)
+            if not os.path.isdir(inside):
+                os.makedirs(inside, exist_ok=True)
+                _seed_cache(inside)
             return inside
         except OSError:
             pass
     os.makedirs(d, exist_ok=True)
     return d
+
+
+def _seed_cache(inside):
+    """a scratch copy differs from /repo in a few files: start from /repo's cache (hard links, no copy); every entry is validated against
+    the copy's own files by the content hashes in its key, so only the translation units the change touches are extracted again"""
+    src = os.path.join(WORK, 'facts', hashlib.md5(b'/repo').hexdigest()[:8])
+    if not os.path.isdir(src):
+        return
+    for name in os.listdir(src):
+        if not name.endswith(('.json', '.key')):
+            continue
+        try:
+            os.link(os.path.join(src, name), os.path.join(inside, name))
+        except OSError:
+            return      # another file system: no seeding, everything is extracted
+
+
+def _norm_flags(flags):
+    """compile flags with the location of the tree taken out (the key of a cache entry must not depend on where the tree lies)"""
+    out = []
+    for a in flags:
+        for pre in (REPO + '/', '/repo/'):
+            if a.startswith('-I' + pre):
+                a = '-I$R/' + a[len('-I' + pre):]
+                break
+        out.append(a)
+    return out
 
 
 def _cache_paths(rel):
@@ -125,7 +154,7 @@ def _fresh(rel):
     except Exception:
         return False
     flags, _ = _flags_for(rel)
-    if key.get('flags') != flags or key.get('plugin') != _sha(PLUGIN):
+    if _norm_flags(key.get('flags') or []) != _norm_flags(flags) or key.get('plugin') != _sha(PLUGIN):
         return False
     for f, h in key['files'].items():
         p = os.path.join(REPO, f)
